@@ -1,16 +1,43 @@
-import PsyVerif.Lemmas.TreeAcyclic
+import PsyVerif.Lemmas.TreeFuel
 import PsyVerif.Gen.NodeKinds
 /-! # C14 — The PSyIR tree stays well-formed under any sequence of edits
 
 Model: `PsyVerif/Model/Tree.lean` — the child-list operations of
-`src/psyclone/psyir/nodes/node.py` **with fixes/C14-childrenlist.patch applied** (the pinned
-code violates the property in five ways, see the fix file and DESIGN §5).  `step K h op` mirrors
-one public operation; `K` is the `_validate_child` table of the node classes (the concrete one
-is regenerated from the live classes into `PsyVerif/Gen/NodeKinds.lean`; every theorem below
-holds for *all* tables, so it cannot be invalidated by a change of a `_validate_child`).
+`src/psyclone/psyir/nodes/node.py` as repaired by the `fix:` commits derived from
+fixes/C14-childrenlist.patch (the pinned code violated the property in five ways: negative
+indices validated against `len - index`; `remove()` locating by `==`; the `children` setter
+popping before validating; duplicates accepted by `extend`; an ancestor accepted below its own
+descendant).  `step K h op` mirrors one public operation on a heap `id ↦ kind, children, parent,
+constructor-parent flag`; refusals are explicit outcomes.  Operations covered: `append`, `insert`,
+`addchild` (with/without index), `extend`, `+=`, `*=`, `__setitem__`, `__delitem__`, `pop`, `remove`,
+`reverse`, `clear`, `sort`, the `children` setter, `pop_all_children`, `detach` (also on a root),
+`replace_with` (both values of `keep_name_in_context`), `Call.append_named_arg/insert_named_arg/
+replace_named_arg` and the named branch of `replace_with` (on `CState` = heap + the lazily
+reconciled `_argument_names`, see `cstep`), and the forms rejected by type (`children[i:j] = …`, `del children[i:j]`, `pop(slice)`,
+a non-list for the setter, a non-Node / non-bool for `replace_with`).  `lst = node.children` is an
+alias of the node's list, so operations through such a handle are the same operations.
 
-Quantification: every heap (any number of nodes of any kinds, any shape satisfying `WF`),
-every operation with arbitrary `Int` indices and arbitrary operand nodes, every history.
+`K` is the `_validate_child` table of the node classes; the concrete one is regenerated from the
+live classes into `PsyVerif/Gen/NodeKinds.lean`; every theorem holds for *all* tables.
+
+Theorems (all for every heap / operation / `Int` index / history, no bound on sizes):
+* `C14_preserve`, `C14_atomic`, `C14_reachable`, `C14_reachable_atomic` — `WF` is preserved by every
+  step; a raising step changes nothing; lifted to histories;
+* `C14_acyclic_preserve`, `C14_acyclic_reachable`, `C14_no_self_ancestor` — the links stay a forest;
+* `C14_inRange_preserve`, `C14_ancestor_fuel_adequate` — the bounded ancestor walk of the model never
+  runs out of fuel and equals the unbounded Python loop (pigeonhole over a rank function);
+* `C14_constructed_wf` — everything built from constructor-fresh nodes (`Loop.create`,
+  `IfBlock.create`, `Assignment.create`, `children=[…]` arguments) is well-formed;
+* `C14_statement`, `C14_statement_constructed` — the property in its own words;
+* `C14_listed_exactly_once`, `C14_children_valid`, `C14_popAll_never_raises`, `C14_wf_of_check`;
+* list handles (`lst = node.children`, used before/after `children =` assignments):
+  `C14_statement_handles` (def), `C14_statement_handles_holds`, `C14_handles_preserve`,
+  `C14_handles_atomic`; `C14_stale_handle_counterexample` — the pinned setter (before 6dd9337);
+* named arguments: `cstep_tree` (the tree effect of every named-argument operation is that of one
+  plain operation or none), `C14_named_preserve`, `C14_named_atomic`, `C14_named_reachable`,
+  `C14_named_conservative` (without names `replace_with` is the plain model); two observed
+  wrong-edit behaviours of the real `replace_with` are reproduced as `example`s (no clause broken);
+* `C14_pinned_pop_counterexample` — why the repair was needed.
 
 `WF` (in `Lemmas/TreeHeap.lean`) is: a listed child points back to its parent and has no pending
 constructor-parent flag; no list contains a node twice; a node whose parent link is established
@@ -45,7 +72,7 @@ theorem detach_wf (wf : WF K h) (x : Id) : WF K (detach K h x).1 := by
     · exact delitem_wf wf _ _
     · exact wf
 
-theorem replaceWith_wf (wf : WF K h) (x y : Id) : WF K (replaceWith K h x y).1 := by
+theorem replaceWith_wf (wf : WF K h) (x y : Id) (keep : Bool) : WF K (replaceWith K h x y keep).1 := by
   unfold replaceWith
   split
   · exact wf
@@ -169,8 +196,8 @@ theorem detach_atomic (x : Id) : (detach K h x).2 ≠ .ok → (detach K h x).1 =
     · exact delitem_atomic _ _
     · simp
 
-theorem replaceWith_atomic (x y : Id) :
-    (replaceWith K h x y).2 ≠ .ok → (replaceWith K h x y).1 = h := by
+theorem replaceWith_atomic (x y : Id) (keep : Bool) :
+    (replaceWith K h x y keep).2 ≠ .ok → (replaceWith K h x y keep).1 = h := by
   unfold replaceWith
   split
   · simp
@@ -182,6 +209,32 @@ theorem replaceWith_atomic (x y : Id) :
       · split
         · simp
         · exact setitem_atomic _ _ _
+
+/-! fresh nodes -/
+
+theorem fresh_fields (specs : List (Kind × Option Id)) (i : Id) :
+    (Heap.fresh specs).children i = [] ∧
+    (Heap.fresh specs).ctor i = ((Heap.fresh specs).parent i).isSome ∧
+    (Heap.fresh specs).parent i = (specs[i]?).bind (·.2) ∧
+    (Heap.fresh specs).size = specs.length := by
+  simp only [Heap.fresh, Heap.ofList, List.getElem?_map, List.length_map]
+  cases specs[i]? <;> simp
+
+theorem freshOk_spec {specs : List (Kind × Option Id)} (hok : freshOk specs = true) {c q : Id}
+    (hp : (Heap.fresh specs).parent c = some q) : q < c ∧ c < specs.length := by
+  rw [(fresh_fields specs c).2.2.1] at hp
+  cases hs : specs[c]? with
+  | none => rw [hs] at hp; simp at hp
+  | some sp =>
+    obtain ⟨k, po⟩ := sp
+    rw [hs] at hp
+    simp only [Option.bind_some] at hp
+    subst hp
+    have hc : c < specs.length := (List.getElem?_eq_some_iff.mp hs).1
+    simp only [freshOk, List.all_eq_true, List.mem_range] at hok
+    have := hok c hc
+    rw [hs] at this
+    exact ⟨by simpa using this, hc⟩
 
 /-! ## The property -/
 
@@ -208,7 +261,14 @@ theorem C14_preserve (K : Kinds) (h : Heap) (op : Op) (wf : WF K h) : WF K (step
   | setChildren p xs => exact setChildren_wf wf p xs
   | popAll p => exact popAll_wf wf p _
   | detach x => exact detach_wf wf x
-  | replaceWith x y => exact replaceWith_wf wf x y
+  | replaceWith x y keep => exact replaceWith_wf wf x y keep
+  | appendNamedArg p x => exact append_wf wf p x
+  | insertNamedArg p i x => exact insert_wf wf p _ x
+  | setslice p => exact wf
+  | delslice p => exact wf
+  | setChildrenNonList p => exact wf
+  | replaceWithNonNode x => exact wf
+  | replaceWithBadFlag x y => exact wf
 
 /-- **C14, clause 2**: an operation that raises an error (any outcome other than `ok`) leaves
 the tree exactly as it was. -/
@@ -233,7 +293,14 @@ theorem C14_atomic (K : Kinds) (h : Heap) (op : Op) (wf : WF K h) :
   | setChildren p xs => exact setChildren_atomic wf p xs
   | popAll p => intro hne; exact absurd (popAll_ok K h p) hne
   | detach x => exact detach_atomic x
-  | replaceWith x y => exact replaceWith_atomic x y
+  | replaceWith x y keep => exact replaceWith_atomic x y keep
+  | appendNamedArg p x => exact append_atomic p x
+  | insertNamedArg p i x => exact insert_atomic p _ x
+  | setslice p => intro _; rfl
+  | delslice p => intro _; rfl
+  | setChildrenNonList p => intro _; rfl
+  | replaceWithNonNode x => intro _; rfl
+  | replaceWithBadFlag x y => intro _; rfl
 
 /-- **C14 for histories**: after any sequence of operations (of any length) started in a
 well-formed tree, the tree is well-formed. -/
@@ -292,7 +359,14 @@ theorem C14_acyclic_preserve (K : Kinds) (h : Heap) (op : Op) (hac : Acyclic h) 
   | setChildren p xs => exact setChildren_acyclic hac p xs
   | popAll p => exact popAll_acyclic hac p _
   | detach x => exact detach_acyclic hac x
-  | replaceWith x y => exact replaceWith_acyclic hac x y
+  | replaceWith x y keep => exact replaceWith_acyclic hac x y keep
+  | appendNamedArg p x => exact append_acyclic hac p x
+  | insertNamedArg p i x => exact insert_acyclic hac p _ x
+  | setslice p => exact hac
+  | delslice p => exact hac
+  | setChildrenNonList p => exact hac
+  | replaceWithNonNode x => exact hac
+  | replaceWithBadFlag x y => exact hac
 
 theorem C14_acyclic_reachable (K : Kinds) (h₀ : Heap) (hac : Acyclic h₀) (ops : List Op) :
     Acyclic (run K h₀ ops) := by
@@ -305,6 +379,127 @@ that node — after any history. -/
 theorem C14_no_self_ancestor (K : Kinds) (h₀ : Heap) (hac : Acyclic h₀) (ops : List Op) (n q : Id)
     (hp : (run K h₀ ops).parent n = some q) : ¬ Anc (run K h₀ ops) n q :=
   (C14_acyclic_reachable K h₀ hac ops).no_self_ancestor hp
+
+/-- the allocated-nodes invariant: operations on allocated nodes only link allocated nodes -/
+theorem C14_inRange_preserve (K : Kinds) (n : Nat) (h : Heap) (op : Op) (hir : InRangeS n h)
+    (hids : ∀ i ∈ op.ids, i < n) : InRangeS n (step K h op).1 := by
+  cases op with
+  | append p x => exact append_inRange hir p x (hids p (by simp [Op.ids])) (hids x (by simp [Op.ids]))
+  | insert p i x => exact insert_inRange hir p i x (hids p (by simp [Op.ids])) (hids x (by simp [Op.ids]))
+  | addchild p x i => cases i with
+    | none => exact append_inRange hir p x (hids p (by simp [Op.ids])) (hids x (by simp [Op.ids]))
+    | some i => exact insert_inRange hir p i x (hids p (by simp [Op.ids])) (hids x (by simp [Op.ids]))
+  | extend p xs =>
+    exact extend_inRange hir p xs (hids p (by simp [Op.ids])) (fun x hx => hids x (by simp [Op.ids, hx]))
+  | iadd p xs =>
+    exact extend_inRange hir p xs (hids p (by simp [Op.ids])) (fun x hx => hids x (by simp [Op.ids, hx]))
+  | setitem p i x => exact setitem_inRange hir p i x (hids p (by simp [Op.ids])) (hids x (by simp [Op.ids]))
+  | delitem p i => exact delitem_inRange hir p i
+  | pop p i => exact delitem_inRange hir p i
+  | remove p x => exact remove_inRange hir p x
+  | reverse p => exact reverse_inRange hir p
+  | clear p => exact clear_inRange hir p
+  | sort p => exact hir
+  | imul p => exact hir
+  | setChildren p xs =>
+    exact setChildren_inRange hir p xs (hids p (by simp [Op.ids])) (fun x hx => hids x (by simp [Op.ids, hx]))
+  | popAll p => exact popAll_inRange hir p _
+  | detach x => exact detach_inRange hir x
+  | replaceWith x y keep => exact replaceWith_inRange hir x y keep (hids y (by simp [Op.ids]))
+  | appendNamedArg p x => exact append_inRange hir p x (hids p (by simp [Op.ids])) (hids x (by simp [Op.ids]))
+  | insertNamedArg p i x =>
+    exact insert_inRange hir p _ x (hids p (by simp [Op.ids])) (hids x (by simp [Op.ids]))
+  | setslice p => exact hir
+  | delslice p => exact hir
+  | setChildrenNonList p => exact hir
+  | replaceWithNonNode x => exact hir
+  | replaceWithBadFlag x y => exact hir
+
+/-- **The fuel of the model is adequate**: on a heap with acyclic links whose linked nodes are
+among the `size` allocated ones, the bounded ancestor walk of the model never runs out of fuel
+and decides exactly what the unbounded `while cursor is not None` loop of `_check_not_ancestor`
+decides: it refuses iff the item is the target node or one of its ancestors.  So `step` is the
+Python, not an approximation of it. -/
+theorem C14_ancestor_fuel_adequate (h : Heap) (hac : Acyclic h) (hir : InRangeS h.size h) (p x : Id) :
+    exh h (h.size + 1) (some p) = false ∧ (noCycle h p x = true ↔ ¬ Anc h x p) :=
+  ⟨not_exh hir hac p, noCycle_sound, noCycle_complete hir hac⟩
+
+/-- the three invariants together -/
+structure Good (K : Kinds) (n : Nat) (h : Heap) : Prop where
+  wf : WF K h
+  acyclic : Acyclic h
+  inRange : InRangeS n h
+
+theorem C14_good_reachable (K : Kinds) (n : Nat) (h₀ : Heap) (g : Good K n h₀) (ops : List Op)
+    (hops : ∀ o ∈ ops, ∀ i ∈ o.ids, i < n) : Good K n (run K h₀ ops) := by
+  induction ops generalizing h₀ with
+  | nil => exact g
+  | cons o os ih =>
+    refine ih (step K h₀ o).1 ⟨C14_preserve K h₀ o g.wf, C14_acyclic_preserve K h₀ o g.acyclic,
+      C14_inRange_preserve K n h₀ o g.inRange (hops o (by simp))⟩ (fun o' ho' => hops o' (by simp [ho']))
+
+/-- **Trees built by the constructors are well-formed.**  `Heap.fresh specs` is what
+`Cls()` / `Cls(parent=p)` calls leave (`freshOk`: a constructor parent exists before the node
+that names it); every `create()` method and every `children=[...]` constructor argument then only
+uses the modelled operations (`Loop.create` = `Schedule(parent=loop, children=body)` i.e. `extend`,
+then the `children` setter; likewise `IfBlock.create`, `Assignment.create`), so whatever they
+build is covered by `ops`. -/
+theorem C14_constructed_wf (K : Kinds) (specs : List (Kind × Option Id)) (hok : freshOk specs = true)
+    (ops : List Op) (hops : ∀ o ∈ ops, ∀ i ∈ o.ids, i < specs.length) :
+    Good K specs.length (run K (Heap.fresh specs) ops) := by
+  refine C14_good_reachable K _ _ ⟨?_, ?_, ?_⟩ ops hops
+  · refine ⟨?_, ?_, ?_, ?_⟩
+    · intro p c hc; rw [(fresh_fields specs p).1] at hc; simp at hc
+    · intro p; rw [(fresh_fields specs p).1]; simp
+    · intro c p hp hc
+      rw [(fresh_fields specs c).2.1, hp] at hc; simp at hc
+    · intro p i c hc; rw [(fresh_fields specs p).1] at hc; simp at hc
+  · exact ⟨fun i => i, fun c q hp => (freshOk_spec hok hp).1⟩
+  · refine ⟨(fresh_fields specs 0).2.2.2, fun c q hp => ?_⟩
+    have := freshOk_spec hok hp
+    exact ⟨this.2, Nat.lt_trans this.1 this.2⟩
+
+/-- **C14, the statement in the words of the property.**  Start from any well-formed tree (in
+particular, by `C14_constructed_wf`, from anything the constructors build) and apply any sequence
+of public tree-editing operations — adding, inserting, replacing, removing, popping, detaching,
+clearing or re-assigning children, with positive, negative or out-of-range positions, valid or
+not.  Then, in the state reached:
+1. every node whose parent link is established is listed exactly once by that parent and by no
+   other node;
+2. every listed child points back to the node that lists it and is of a kind valid at its position;
+3. no node is its own ancestor;
+4. whatever operation comes next, if it raises an error it leaves the tree exactly as it was;
+5. the model's bounded ancestor walk coincides with the unbounded loop of the code. -/
+theorem C14_statement (K : Kinds) (n : Nat) (h₀ : Heap) (g : Good K n h₀) (ops : List Op)
+    (hops : ∀ o ∈ ops, ∀ i ∈ o.ids, i < n) :
+    let h := run K h₀ ops
+    (∀ c p, h.parent c = some p → h.ctor c = false →
+        (h.children p).count c = 1 ∧ ∀ q, q ≠ p → c ∉ h.children q) ∧
+    (∀ p i c, (h.children p)[i]? = some c →
+        h.parent c = some p ∧ K.valid (h.kind p) i (h.kind c) = true) ∧
+    (∀ c q, h.parent c = some q → ¬ Anc h c q) ∧
+    (∀ op, (step K h op).2 ≠ .ok → (step K h op).1 = h) ∧
+    (∀ p x, noCycle h p x = true ↔ ¬ Anc h x p) := by
+  intro h
+  have gh : Good K n h := C14_good_reachable K n h₀ g ops hops
+  refine ⟨fun c p hp hc => C14_listed_exactly_once K h gh.wf c p hp hc, ?_, ?_, ?_, ?_⟩
+  · intro p i c hc
+    exact ⟨(gh.wf.link p c (List.mem_of_getElem? hc)).1, gh.wf.valid p i c hc⟩
+  · intro c q hp; exact gh.acyclic.no_self_ancestor hp
+  · intro op; exact C14_atomic K h op gh.wf
+  · intro p x
+    have hir : InRangeS h.size h := by have := gh.inRange; rw [← this.1] at this; exact this
+    exact (C14_ancestor_fuel_adequate h gh.acyclic hir p x).2
+
+/-- the statement for histories that start from constructor-built nodes -/
+theorem C14_statement_constructed (K : Kinds) (specs : List (Kind × Option Id))
+    (hok : freshOk specs = true) (build ops : List Op)
+    (hb : ∀ o ∈ build, ∀ i ∈ o.ids, i < specs.length) (hops : ∀ o ∈ ops, ∀ i ∈ o.ids, i < specs.length) :
+    let h := run K (run K (Heap.fresh specs) build) ops
+    WF K h ∧ Acyclic h ∧ (∀ op, (step K h op).2 ≠ .ok → (step K h op).1 = h) := by
+  intro h
+  have g := C14_good_reachable K _ _ (C14_constructed_wf K specs hok build hb) ops hops
+  exact ⟨g.wf, g.acyclic, fun op => C14_atomic K h op g.wf⟩
 
 /-- Any concrete heap given as a list of node records that passes the executable test is
 well-formed (used for the non-vacuity examples below). -/
@@ -346,7 +541,7 @@ def hist : List Op := [
   .insert 3 (-9) 9,     -- clamped to position 0, would displace the loop bounds/body: refused
   .setChildren 7 [12, 8, 9],   -- Literal 9 is not a Statement: refused, nothing popped
   .setChildren 7 [12, 8],      -- reorders the existing children
-  .pop 7 (-1), .detach 3, .replaceWith 1 9, .remove 10 8]
+  .pop 7 (-1), .detach 3, .replaceWith 1 9 true, .remove 10 8]
 
 example : outcomes Gen.kinds h0 hist =
     [.generationError, .ok, .indexError, .ok, .generationError, .ok, .generationError,
@@ -400,5 +595,299 @@ theorem C14_pinned_pop_counterexample :
   have := wf.valid 3 2 7 (by decide +kernel)
   revert this
   decide +kernel
+
+/-! ## non-vacuity of `C14_constructed_wf`: the shapes built by the `create()` methods -/
+
+open Gen in
+/-- `Loop.create(var, start, stop, step, [stmt])`: `loop = Loop()`, `Schedule(parent=loop,
+children=[stmt])`, `loop.children = [start, stop, step, schedule]` -/
+def loopCreateSpecs : List (Kind × Option Id) :=
+  [(kReference, none), (kLiteral, none), (kLiteral, none), (kAssignment, none), (kLoop, none), (kSchedule, some 4)]
+def loopCreateOps : List Op := [.extend 5 [3], .setChildren 4 [0, 1, 2, 5]]
+
+example : freshOk loopCreateSpecs = true := by decide
+example : ∀ o ∈ loopCreateOps, ∀ i ∈ o.ids, i < loopCreateSpecs.length := by decide
+example : outcomes Gen.kinds (Heap.fresh loopCreateSpecs) loopCreateOps = [.ok, .ok] := by decide +kernel
+example : (run Gen.kinds (Heap.fresh loopCreateSpecs) loopCreateOps).children 4 = [0, 1, 2, 5] ∧
+    (run Gen.kinds (Heap.fresh loopCreateSpecs) loopCreateOps).children 5 = [3] ∧
+    (run Gen.kinds (Heap.fresh loopCreateSpecs) loopCreateOps).ctor 5 = false := by decide +kernel
+example : WF Gen.kinds (run Gen.kinds (Heap.fresh loopCreateSpecs) loopCreateOps) :=
+  (C14_constructed_wf Gen.kinds loopCreateSpecs (by decide) loopCreateOps (by decide)).wf
+
+open Gen in
+/-- `IfBlock.create(cond, [s1], [s2])` and `Assignment.create(lhs, rhs)` -/
+def ifCreateSpecs : List (Kind × Option Id) :=
+  [(kReference, none), (kAssignment, none), (kAssignment, none), (kIfBlock, none), (kSchedule, some 3),
+   (kSchedule, some 3), (kReference, none), (kLiteral, none)]
+def ifCreateOps : List Op :=
+  [.setChildren 1 [6, 7],                       -- Assignment.create
+   .extend 4 [1], .extend 5 [2], .setChildren 3 [0, 4, 5]]
+
+example : freshOk ifCreateSpecs = true := by decide
+example : outcomes Gen.kinds (Heap.fresh ifCreateSpecs) ifCreateOps = [.ok, .ok, .ok, .ok] := by decide +kernel
+example : (run Gen.kinds (Heap.fresh ifCreateSpecs) ifCreateOps).children 3 = [0, 4, 5] ∧
+    (run Gen.kinds (Heap.fresh ifCreateSpecs) ifCreateOps).children 1 = [6, 7] ∧
+    (run Gen.kinds (Heap.fresh ifCreateSpecs) ifCreateOps).parent 1 = some 4 := by decide +kernel
+
+/-- the hypotheses of `C14_statement` are met by `h0` (13 allocated nodes) and `hist` -/
+example : Good Gen.kinds 13 h0 :=
+  ⟨h0_wf, h0_acyclic, rfl, by
+    intro c q hp
+    have hc : c < 13 := by
+      by_cases hc : c < 13
+      · exact hc
+      · have hp' : (Heap.ofList t0).parent c = some q := hp
+        rw [(ofList_out t0 c (Nat.le_of_not_lt hc)).2] at hp'; cases hp'
+    refine ⟨hc, ?_⟩
+    have : ∀ c : Fin 13, ∀ q, h0.parent c.1 = some q → q < 13 := by decide +kernel
+    exact this ⟨c, hc⟩ q hp⟩
+example : ∀ o ∈ hist, ∀ i ∈ o.ids, i < 13 := by decide
+
+/-! ## list handles
+
+`lst = node.children` is the node's own list object and stays so (the repaired setter refills it
+instead of installing a new one), so an operation through a handle — taken before or after any
+number of `children =` assignments — is the operation on the node. -/
+
+/-- **C14 with handles**: histories that mix operations on nodes with ChildrenList methods called
+through earlier-taken handles keep the tree well-formed … -/
+def C14_statement_handles : Prop :=
+  ∀ (K : Kinds) (s : HState) (ops : List HOp), WF K s.heap → WF K (hrun K s ops).heap
+
+theorem C14_handles_preserve (K : Kinds) (s : HState) (o : HOp) (wf : WF K s.heap) :
+    WF K (hstep K s o).1.heap := by
+  cases o with
+  | cur op => exact C14_preserve K s.heap op wf
+  | take p => exact wf
+  | via k lop =>
+    simp only [hstep]
+    split
+    · exact wf
+    · exact C14_preserve K s.heap _ wf
+
+theorem C14_statement_handles_holds : C14_statement_handles := by
+  intro K s ops wf
+  induction ops generalizing s with
+  | nil => exact wf
+  | cons o os ih => exact ih (hstep K s o).1 (C14_handles_preserve K s o wf)
+
+/-- … and a raising operation through a handle changes neither the tree nor the handles. -/
+theorem C14_handles_atomic (K : Kinds) (s : HState) (o : HOp) (wf : WF K s.heap) :
+    (hstep K s o).2 ≠ .ok → (hstep K s o).1.heap = s.heap ∧ (hstep K s o).1.handles = s.handles := by
+  cases o with
+  | cur op => intro hne; exact ⟨C14_atomic K s.heap op wf hne, rfl⟩
+  | take p => intro hne; exact absurd rfl hne
+  | via k lop =>
+    simp only [hstep]
+    split
+    · intro hne; exact absurd rfl hne
+    · intro hne; exact ⟨C14_atomic K s.heap _ wf hne, rfl⟩
+
+/-- non-vacuity: a handle taken *before* a setter assignment is used after it -/
+def histH : List HOp :=
+  [.take 7, .cur (.setChildren 7 [8]), .via 0 (.append 11), .via 0 (.pop (-3)), .via 0 (.insert (-1) 12)]
+example : ((hrun Gen.kinds ⟨h0, []⟩ histH).heap.children 7 = [8, 12, 11]) ∧
+    (hrun Gen.kinds ⟨h0, []⟩ histH).heap.parent 11 = some 7 := by decide +kernel
+example : WF Gen.kinds (hrun Gen.kinds ⟨h0, []⟩ histH).heap :=
+  C14_statement_handles_holds Gen.kinds ⟨h0, []⟩ histH h0_wf
+
+/-! ### why fix 6dd9337 was needed: the pinned setter left a stale list object behind -/
+
+/-- `lst = n7.children; n7.children = [n8]; lst.append(n11)` on the pinned code: node 11 gets
+parent 7 although 7 does not list it (the witness of the fixed finding `C14-stale-children-list`;
+with 6dd9337 reverted the harness finds such histories on the real code). -/
+theorem C14_stale_handle_counterexample :
+    ¬ (∀ (K : Kinds) (s : HStatePinned) (ops : List HOpPinned), WF K s.heap → WF K (hrunPinned K s ops).heap) := by
+  intro hs
+  have wf := hs Gen.kinds ⟨h0, []⟩ [.cur (.setChildren 7 [8]), .viaStale 0 (.append 11)] h0_wf
+  have := wf.back 11 7 (by decide +kernel) (by decide +kernel)
+  revert this
+  decide +kernel
+
+/-- the same through other methods of the stale object: `insert`, `extend`, `+=` -/
+example : (hrunPinned Gen.kinds ⟨h0, []⟩ [.cur (.setChildren 7 [8]), .viaStale 0 (.insert (-4) 11)]).heap.parent 11 = some 7 ∧
+    (hrunPinned Gen.kinds ⟨h0, []⟩ [.cur (.setChildren 7 [8]), .viaStale 0 (.extend [11, 12])]).heap.parent 12 = some 7 ∧
+    (hrunPinned Gen.kinds ⟨h0, []⟩ [.cur (.setChildren 7 [8]), .viaStale 0 (.extend [11, 12])]).heap.children 7 = [8] := by
+  decide +kernel
+
+/-! ## named arguments of Call nodes
+
+`cstep` adds `Call._argument_names` (lazily reconciled) to the state and models
+`append_named_arg`, `insert_named_arg`, `replace_named_arg`, the `argument_names` property and
+the named branch of `replace_with`.  Whatever the names are, the effect on the *tree* is that of
+one modelled list operation (or none), so every theorem above carries over. -/
+
+/-- the tree effect of a named-argument operation is that of a plain operation, or nothing -/
+theorem cstep_tree (K : Kinds) (s : CState) (o : COp) :
+    (cstep K s o).1.heap = s.heap ∨
+    ∃ op, (cstep K s o).1.heap = (step K s.heap op).1 ∧ (cstep K s o).2 = (step K s.heap op).2 := by
+  have hrep : ∀ (s : CState) (q : Id) (nm : ArgName) (y : Id),
+      (replaceNamedArg K s q nm y).1.heap = s.heap ∨
+      ∃ op, (replaceNamedArg K s q nm y).1.heap = (step K s.heap op).1 ∧
+        (replaceNamedArg K s q nm y).2 = (step K s.heap op).2 := by
+    intro s q nm y
+    unfold replaceNamedArg
+    simp only
+    split
+    · left; rfl
+    · rename_i j _
+      right
+      refine ⟨.setitem q ((j : Int) + 1) y, ?_⟩
+      simp only [step]
+      split <;> simp_all [CState.setNames]
+  cases o with
+  | plain op => right; exact ⟨op, rfl, rfl⟩
+  | replaceNamed p nm y => exact hrep s p nm y
+  | argumentNames p => left; rfl
+  | appendNamed p nm x =>
+    cases nm with
+    | none => right; exact ⟨.append p x, rfl, rfl⟩
+    | some n =>
+      simp only [cstep, appendNamedArgC]
+      split
+      · left; rfl
+      · right; exact ⟨.append p x, rfl, rfl⟩
+  | insertNamed p nm i x =>
+    cases nm with
+    | none => right; exact ⟨.insert p (i + 1) x, rfl, rfl⟩
+    | some n =>
+      simp only [cstep, insertNamedArgC]
+      split
+      · left; rfl
+      · right; exact ⟨.insert p (i + 1) x, rfl, rfl⟩
+  | replaceWith x y keep =>
+    simp only [cstep, replaceWithC]
+    split
+    · left; rfl
+    · rename_i q _
+      split
+      · left; rfl
+      · split
+        · split
+          · left; rfl
+          · split
+            · left; rfl
+            · right; exact ⟨.setitem q _ y, rfl, rfl⟩
+            · rename_i nm _
+              exact hrep _ q nm y
+        · split
+          · left; rfl
+          · right; exact ⟨.setitem q _ y, rfl, rfl⟩
+
+/-- **C14 with named arguments**: every operation of the extended model preserves `WF` … -/
+theorem C14_named_preserve (K : Kinds) (s : CState) (o : COp) (wf : WF K s.heap) :
+    WF K (cstep K s o).1.heap := by
+  rcases cstep_tree K s o with h | ⟨op, h, _⟩
+  · rw [h]; exact wf
+  · rw [h]; exact C14_preserve K s.heap op wf
+
+/-- … and when it raises, the tree is exactly as it was (the lazily maintained name list may have
+been reconciled, which is not part of the tree). -/
+theorem C14_named_atomic (K : Kinds) (s : CState) (o : COp) (wf : WF K s.heap) :
+    (cstep K s o).2 ≠ .ok → (cstep K s o).1.heap = s.heap := by
+  intro hne
+  rcases cstep_tree K s o with h | ⟨op, h, h2⟩
+  · exact h
+  · rw [h]; exact C14_atomic K s.heap op wf (by rw [← h2]; exact hne)
+
+theorem C14_named_reachable (K : Kinds) (s : CState) (ops : List COp) (wf : WF K s.heap) :
+    WF K (crun K s ops).heap := by
+  induction ops generalizing s with
+  | nil => exact wf
+  | cons o os ih => exact ih (cstep K s o).1 (C14_named_preserve K s o wf)
+
+theorem reconcile_none {args : List Id} {es : List Entry} (hn : ∀ e ∈ es, e.2 = none) :
+    (reconcile args es).length = args.length ∧ ∀ e ∈ reconcile args es, e.2 = none := by
+  refine ⟨by simp [reconcile], ?_⟩
+  intro e he
+  simp only [reconcile, List.mem_map] at he
+  obtain ⟨c, _, rfl⟩ := he
+  split
+  · rename_i e' hf; exact hn e' (List.mem_of_find?_eq_some hf)
+  · rfl
+
+/-- **conservativity**: while no argument is named, the named-argument model of `replace_with`
+is the plain one (`step … (.replaceWith x y keep)`), including the `IndexError` of a call without
+arguments. -/
+theorem C14_named_conservative (K : Kinds) (s : CState) (x y : Id) (keep : Bool)
+    (hn : ∀ q, ∀ e ∈ s.names q, e.2 = none) :
+    (replaceWithC K s x y keep).1.heap = (replaceWith K s.heap x y keep).1 ∧
+    (replaceWithC K s x y keep).2 = (replaceWith K s.heap x y keep).2 := by
+  unfold replaceWithC replaceWith
+  simp only
+  split
+  · exact ⟨rfl, rfl⟩
+  · rename_i q _
+    split
+    · exact ⟨rfl, rfl⟩
+    · by_cases hk : (s.heap.children q).idxOf x < (s.heap.children q).length
+      · by_cases hka : (keep && K.argNames (s.heap.kind q)) = true
+        · obtain ⟨hlen, hnone⟩ := reconcile_none (args := (s.heap.children q).drop 1) (hn q)
+          simp only [hka, hk, if_true, Bool.true_and, decide_true, Bool.not_true]
+          generalize hes : reconciled s q = es
+          have hes' : es = reconcile ((s.heap.children q).drop 1) (s.names q) := by rw [← hes]; rfl
+          rw [hes'] at *
+          clear hes hes'
+          generalize reconcile ((s.heap.children q).drop 1) (s.names q) = es at *
+          simp only [List.length_drop] at hlen
+          by_cases h0 : (s.heap.children q).idxOf x = 0 ∧ (s.heap.children q).length = 1
+          · have : es = [] := List.length_eq_zero_iff.mp (by omega)
+            subst this
+            simp [pyGet, positiveIndex, h0.1, h0.2, CState.setNames]
+          · have hcond : ((s.heap.children q).idxOf x == 0 && (s.heap.children q).length == 1) = false := by
+              cases hh : ((s.heap.children q).idxOf x == 0 && (s.heap.children q).length == 1)
+              · rfl
+              · simp at hh; exact absurd hh h0
+            simp only [hcond, Bool.false_eq_true, if_false]
+            have hget : ∃ e, pyGet es (((s.heap.children q).idxOf x : Int) - 1) = some e ∧ e ∈ es := by
+              unfold pyGet positiveIndex
+              by_cases hz : (s.heap.children q).idxOf x = 0
+              · have hl : 2 ≤ (s.heap.children q).length := by omega
+                have h1 : ¬ (0 : Int) ≤ ((s.heap.children q).idxOf x : Int) - 1 := by omega
+                have h2 : (0 : Int) ≤ ((s.heap.children q).idxOf x : Int) - 1 + (es.length : Int) := by omega
+                simp only [h1, h2, if_true, if_false]
+                have h3 : (((s.heap.children q).idxOf x : Int) - 1 + (es.length : Int)).toNat < es.length := by omega
+                exact ⟨es[_]'h3, by simp [h3], List.getElem_mem h3⟩
+              · have h1 : (0 : Int) ≤ ((s.heap.children q).idxOf x : Int) - 1 := by omega
+                simp only [h1, if_true]
+                have h3 : (((s.heap.children q).idxOf x : Int) - 1).toNat < es.length := by omega
+                exact ⟨es[_]'h3, by simp [h3], List.getElem_mem h3⟩
+            obtain ⟨e, hge, hme⟩ := hget
+            obtain ⟨a, b⟩ := e
+            have : b = none := hnone _ hme
+            subst this
+            simp [hge, CState.setNames]
+        · simp only [hka, hk, Bool.false_eq_true, if_false, decide_true, Bool.not_true]
+          have : (keep && K.argNames (s.heap.kind q) && ((s.heap.children q).idxOf x == 0) &&
+              ((s.heap.children q).length == 1)) = false := by
+            simp only [Bool.not_eq_true] at hka; simp [hka]
+          simp [this]
+      · by_cases hka : (keep && K.argNames (s.heap.kind q)) = true <;>
+          simp [hka, hk, CState.setNames]
+
+/-! ### observations on the real `replace_with` (the tree stays well-formed, no C14 clause is
+broken, but a different child is replaced / the edit is refused) -/
+
+open Gen in
+/-- a call `r(lit, foo=lit)`: 0 Call, 1 routine Reference, 2 Literal, 3 Literal named `foo`;
+4 and 5 spare References -/
+def c0 : CState :=
+  { heap := Heap.ofList [⟨kCall, none, false, [1, 2, 3]⟩, ⟨kReference, some 0, false, []⟩,
+      ⟨kLiteral, some 0, false, []⟩, ⟨kLiteral, some 0, false, []⟩, ⟨kReference, none, false, []⟩,
+      ⟨kReference, none, false, []⟩]
+    names := fun i => if i = 0 then [(2, none), (3, some ⟨7, true⟩)] else [] }
+
+/-- `call.children[0].replace_with(x)`: `argument_names[position - 1]` is `argument_names[-1]`,
+the name of the LAST argument, so the last argument is replaced, not the routine reference. -/
+example : (cstep Gen.kinds c0 (.replaceWith 1 4 true)).2 = .ok ∧
+    (cstep Gen.kinds c0 (.replaceWith 1 4 true)).1.heap.children 0 = [1, 2, 4] := by decide +kernel
+/-- with `keep_name_in_context=False` the routine reference is replaced -/
+example : (cstep Gen.kinds c0 (.replaceWith 1 4 false)).1.heap.children 0 = [4, 2, 3] := by decide +kernel
+/-- an argument whose name is not all lower case cannot be replaced keeping its name:
+`replace_named_arg` compares `name.lower()` with the un-lowered name → `ValueError` -/
+example : (cstep Gen.kinds (c0.setNames 0 [(2, none), (3, some ⟨7, false⟩)]) (.replaceWith 3 4 true)).2 = .valueError := by
+  decide +kernel
+example : (cstep Gen.kinds c0 (.replaceWith 3 4 true)).2 = .ok ∧
+    (cstep Gen.kinds c0 (.replaceWith 3 4 true)).1.names 0 = [(2, none), (4, some ⟨7, true⟩)] := by decide +kernel
 
 end C14
